@@ -285,30 +285,45 @@ theorem good_writeRange (ws : Bool) (s : MState) (o : Out) (h : ItemsOK o) : Goo
 
 /-! ## handlers writing one scalar -/
 
-theorem good_zAdd_go (args : List Bytes) (key : Bytes) (now : Int) :
-    ∀ (ps : List (Bytes × Bytes)) (s : MState) (count : Int), Good (zAdd.go args key now ps s count) := by
-  intro ps
-  induction ps with
-  | nil => intro s count; rw [zAdd.go]; exact good_done_scalar _ _ rfl
-  | cons p more ih =>
-    intro s count
-    obtain ⟨sc, member⟩ := p
-    rw [zAdd.go]
-    split
-    · exact good_done_scalar _ _ scalar_unsupported
+/-- the token `parseScores` stops with is the error reply or the marker of a float outside the model -/
+theorem parseScores_error : ∀ (ps : List (Bytes × Bytes)) (t : Tok), parseScores ps = .error t → t = unsupported ∨ t = e
+  | [], t, h => by rw [parseScores] at h; cases h
+  | (sc, member) :: more, t, h => by
+    rw [parseScores] at h
+    split at h
+    · cases h; exact Or.inl rfl
+    · cases h; exact Or.inr rfl
+    · split at h
+      · cases h; exact Or.inr rfl
+      · split at h
+        · next t' heq => cases h; exact parseScores_error more _ heq
+        · cases h
+
+theorem good_zAddBody (args : List Bytes) (key : Bytes) (itemStart : Int) (s : MState) (now : Int) (ch : Choice) :
+    Good (zAddBody args key itemStart s now ch) := by
+  unfold zAddBody
+  dsimp only
+  split
+  · exact good_done_scalar _ _ rfl
+  · split
     · exact good_done_scalar _ _ rfl
     · split
       · exact good_done_scalar _ _ rfl
       · split
-        · apply good_call_all; intro s o
-          split
-          · exact good_done_scalar _ _ (scalar_fmtScore _)
-          · exact good_done_scalar _ _ scalar_unsupported
-        · repeat' split
-          all_goals first
-            | (apply good_call_all; intro s o; exact good_done_scalar _ _ rfl)
-            | exact good_panicOut_nil _
-            | exact ih _ _
+        · exact good_done_scalar _ _ rfl
+        · split
+          · next t heq =>
+            rcases parseScores_error _ _ heq with rfl | rfl
+            · exact good_done_scalar _ _ scalar_unsupported
+            · exact good_done_scalar _ _ rfl
+          · split
+            · split
+              · exact good_panicOut_nil _
+              · apply good_call_all; intro s o
+                split
+                · exact good_done_scalar _ _ (scalar_fmtScore _)
+                · exact good_done_scalar _ _ scalar_unsupported
+            · apply good_call_all; intro s o; exact good_done_scalar _ _ rfl
 
 theorem one_reply_zAdd (args : List Bytes) : OneReply (Handler3.zAdd args) := by
   unfold Handler3.zAdd
@@ -320,7 +335,7 @@ theorem one_reply_zAdd (args : List Bytes) : OneReply (Handler3.zAdd args) := by
     · split
       · exact oneReply_errReply
       · intro s now ch
-        exact good_zAdd_go _ _ _ _ _ _
+        exact good_zAddBody _ _ _ _ _ _
 
 theorem one_reply_zCard (args : List Bytes) : OneReply (Handler3.zCard args) := by
   unfold Handler3.zCard
